@@ -5,6 +5,8 @@ import (
 	"bytes"
 	"encoding/binary"
 	"fmt"
+	"sort"
+	"strconv"
 	"strings"
 
 	"golang.org/x/crypto/salsa20"
@@ -49,6 +51,72 @@ func pickCounter(g *hx.Gen) uint64 {
 	}
 }
 
+// arms of input-dependent branches reached by the generated cases, reported as table.<name>=hit/total
+var arms = map[string]map[string]bool{
+	"salsa.XORKeyStream-len-class(asm)": {"0": false, "1..63": false, "64..255,tail=0": false, "64..255,tail>0": false, ">=256,tail=0": false, ">=256,tail<64": false, ">=256,tail>=64": false},
+	"salsa.counter-carry-reaches-byte":  {"8": false, "9": false, "10": false, "11": false, "12": false, "13": false, "14": false, "15": false, "wrap-2^64": false},
+	"salsa20.XORKeyStream-nonce-len":    {"8": false, "24": false, "other": false},
+}
+
+func arm(t, a string) {
+	if _, ok := arms[t][a]; !ok {
+		panic("unknown arm " + t + "/" + a)
+	}
+	arms[t][a] = true
+}
+
+func lenClass(n int) string {
+	switch {
+	case n == 0:
+		return "0"
+	case n < 64:
+		return "1..63"
+	case n < 256 && n%64 == 0:
+		return "64..255,tail=0"
+	case n < 256:
+		return "64..255,tail>0"
+	case n%256 == 0:
+		return ">=256,tail=0"
+	case n%256 < 64:
+		return ">=256,tail<64"
+	}
+	return ">=256,tail>=64"
+}
+
+// carryArms records how far the carry of the counter increments of an n-byte call travels
+func carryArms(ctr uint64, n int) (deepest int) {
+	deepest = -1
+	for i := 0; i < n/64; i++ {
+		a, b := ctr+uint64(i), ctr+uint64(i)+1
+		if b == 0 {
+			arm("salsa.counter-carry-reaches-byte", "wrap-2^64")
+			deepest = 8
+			continue
+		}
+		top := 0
+		for k := 0; k < 8; k++ {
+			if byte(a>>(8*k)) != byte(b>>(8*k)) {
+				top = k
+			}
+		}
+		arm("salsa.counter-carry-reaches-byte", strconv.Itoa(8+top))
+		if top > deepest {
+			deepest = top
+		}
+	}
+	return
+}
+
+func statPairs(g *hx.Gen, feat []string) {
+	sort.Strings(feat)
+	for i := range feat {
+		g.Stat("feat." + feat[i])
+		for j := i + 1; j < len(feat); j++ {
+			g.Stat("pair." + feat[i] + "+" + feat[j])
+		}
+	}
+}
+
 func gen(g *hx.Gen) {
 	n := g.Count(5000, 60000)
 	r := g.R
@@ -58,35 +126,72 @@ func gen(g *hx.Gen) {
 			k := r.Range(2, 4)
 			var subs []string
 			for j := 0; j < k; j++ {
-				subs = append(subs, genOp(g))
+				subs = append(subs, genOp(g, true))
 			}
 			g.Stat("session")
 			g.Emit("sess %s", strings.Join(subs, " ## "))
 		} else {
-			g.Emit("%s", genOp(g))
+			g.Emit("%s", genOp(g, false))
 		}
+	}
+	for t, m := range arms {
+		hit := 0
+		for _, h := range m {
+			if h {
+				hit++
+			}
+		}
+		g.StatN(fmt.Sprintf("table.%s=%d/%d", t, hit, len(m)), 1)
 	}
 }
 
-func genOp(g *hx.Gen) string {
+func genOp(g *hx.Gen, inSession bool) string {
 	r := g.R
+	var feat []string
+	if inSession {
+		feat = append(feat, "session")
+	}
+	defer func() { statPairs(g, feat) }()
 	for {
 		switch c := r.Intn(20); {
 		case c < 11:
 			var ctr [16]byte
 			copy(ctr[:8], r.Bytes(8))
-			binary.LittleEndian.PutUint64(ctr[8:], pickCounter(g))
+			c64 := pickCounter(g)
+			binary.LittleEndian.PutUint64(ctr[8:], c64)
 			alias := 0
 			if r.Chance(1, 3) {
 				alias = 1
 				g.Stat("xks-alias")
+				feat = append(feat, "in==out")
 			}
 			n := pickLen(r)
+			if r.Chance(1, 12) { // aim the carry at a given byte: counter = 2^(8k) - 1 - j with enough blocks to cross it
+				k := r.Range(1, 8)
+				c64 = uint64(1)<<(uint(8*k)%64) - 1 - uint64(r.Intn(3))
+				if k == 8 {
+					c64 = ^uint64(0) - uint64(r.Intn(3))
+				}
+				binary.LittleEndian.PutUint64(ctr[8:], c64)
+				n = r.PickInt(256, 257, 320, 511, 512, 1024)
+			}
 			g.Stat("f-xks(asm-vs-portable-vs-model)")
 			if n >= 256 {
 				g.Stat("xks-len>=256(asm-4-block-path)")
 			}
-			return fmt.Sprintf("xks key=%s ctr=%s alias=%d src=%s", hx.Hex(r.Bytes(32)), hx.Hex(ctr[:]), alias, hx.Hex(r.Bytes(n)))
+			arm("salsa.XORKeyStream-len-class(asm)", lenClass(n))
+			feat = append(feat, "xks", "len:"+lenClass(n))
+			if d := carryArms(c64, n); d >= 4 {
+				feat = append(feat, "carry-into-high-word")
+			} else if d >= 1 {
+				feat = append(feat, "carry-across-bytes")
+			}
+			ext := 0
+			if alias == 0 && r.Chance(1, 3) {
+				ext = r.PickInt(1, 7, 64)
+				feat = append(feat, "out-longer-than-in")
+			}
+			return fmt.Sprintf("xks key=%s ctr=%s alias=%d ext=%d src=%s", hx.Hex(r.Bytes(32)), hx.Hex(ctr[:]), alias, ext, hx.Hex(r.Bytes(n)))
 		case c < 15:
 			nl := 8
 			if r.Bool() {
@@ -95,21 +200,43 @@ func genOp(g *hx.Gen) string {
 			} else {
 				g.Stat("s20-salsa")
 			}
-			if r.Chance(1, 15) {
+			bad := r.Chance(1, 10)
+			if bad {
 				nl = r.PickInt(0, 7, 9, 12, 16, 23, 25, 32)
 				g.Stat("s20-bad-nonce")
 			}
 			alias := 0
 			if r.Chance(1, 3) {
 				alias = 1
+				feat = append(feat, "in==out")
 			}
-			return fmt.Sprintf("s20 key=%s nonce=%s alias=%d src=%s", hx.Hex(r.Bytes(32)), hx.Hex(r.Bytes(nl)), alias, hx.Hex(r.Bytes(pickLen(r))))
+			n := pickLen(r)
+			if bad && r.Chance(1, 4) {
+				n = 0 // the nonce check comes before the empty-input shortcut
+			}
+			switch nl {
+			case 8, 24:
+				arm("salsa20.XORKeyStream-nonce-len", strconv.Itoa(nl))
+				feat = append(feat, "s20-nonce"+strconv.Itoa(nl))
+			default:
+				arm("salsa20.XORKeyStream-nonce-len", "other")
+				feat = append(feat, "s20-bad-nonce")
+			}
+			feat = append(feat, "len:"+lenClass(n))
+			ext := 0
+			if alias == 0 && r.Chance(1, 3) {
+				ext = r.PickInt(1, 7, 64)
+				feat = append(feat, "out-longer-than-in")
+			}
+			return fmt.Sprintf("s20 key=%s nonce=%s alias=%d ext=%d src=%s", hx.Hex(r.Bytes(32)), hx.Hex(r.Bytes(nl)), alias, ext, hx.Hex(r.Bytes(n)))
 		case c < 18:
 			cc := salsa.Sigma[:]
 			if r.Chance(1, 3) {
 				cc = r.Bytes(16)
 				g.Stat("hs-random-constant")
+				feat = append(feat, "hs-random-constant")
 			}
+			feat = append(feat, "hs")
 			g.Stat("f-hs")
 			return fmt.Sprintf("hs key=%s in=%s c=%s", hx.Hex(r.Bytes(32)), hx.Hex(r.Bytes(16)), hx.Hex(cc))
 		default:
@@ -120,7 +247,9 @@ func genOp(g *hx.Gen) string {
 			alias := 0
 			if r.Bool() {
 				alias = 1
+				feat = append(feat, "in==out")
 			}
+			feat = append(feat, "c208")
 			g.Stat("f-c208")
 			return fmt.Sprintf("c208 alias=%d in=%s", alias, hx.Hex(in))
 		}
@@ -141,8 +270,8 @@ const maxIn = 2000
 func newBufs() *bufs {
 	a := hx.NewArena()
 	m := func(name string, n int) []byte { return a.InOut(name, make([]byte, n)) }
-	return &bufs{a: a, key: m("key", 32), ctr: m("ctr", 16), nonce: m("nonce", 32), in: m("in", maxIn), out: m("out", maxIn+16),
-		key2: m("key2", 32), ctr2: m("ctr2", 16), in2: m("in2", maxIn), out2: m("out2", maxIn+16),
+	return &bufs{a: a, key: m("key", 32), ctr: m("ctr", 16), nonce: m("nonce", 32), in: m("in", maxIn), out: m("out", maxIn+64),
+		key2: m("key2", 32), ctr2: m("ctr2", 16), in2: m("in2", maxIn), out2: m("out2", maxIn+64),
 		hsOut: m("hsOut", 32), c208in: m("c208in", 64), c208out: m("c208out", 64), hsIn: m("hsIn", 16), hsC: m("hsC", 16)}
 }
 
@@ -187,8 +316,8 @@ func execOne(line string, b *bufs) string {
 			copy(ctr, ctrB)
 			in := inBuf[:n]
 			copy(in, src)
-			// out is longer than in for every second length: only out[:len(in)] may be written
-			out := outBuf[:n+(n%2)*7]
+			// out is ext bytes longer than in: only out[:len(in)] may be written
+			out := outBuf[:n+o.Int("ext")]
 			if alias {
 				out = in
 			}
@@ -225,7 +354,7 @@ func execOne(line string, b *bufs) string {
 		copy(nonce, nonceB)
 		in := b.in[:n]
 		copy(in, src)
-		out := b.out[:n+(n%2)*7]
+		out := b.out[:n+o.Int("ext")]
 		alias := o.Int("alias") == 1
 		if alias {
 			out = in
